@@ -1887,6 +1887,29 @@ theorem c09_inline_handshake_blocks_the_listener (later : List SetUp) :
     acceptLoop true (.stalls :: later) = [] := by
   simp [acceptLoop]
 
+/-- **the dispatch of a message never waits for another message's processor**: whatever processors
+are running — and however long they stay (`finish` is the environment's) — every `Dispatch` call
+returns having started the processor: the messages handed to processors are exactly the arrivals,
+in order; no receive loop is ever blocked in `Dispatch` -/
+theorem c09_dispatch_never_waits (s : Rd) (acts : List RdAct) :
+    (∀ a, (rdStep none s a).isSome = true) ∧
+    (rdRun none s acts).started = s.started ++ acts.filterMap RdAct.msg? := by
+  refine ⟨fun a => by cases a <;> simp [rdStep], ?_⟩
+  induction acts generalizing s with
+  | nil => simp [rdRun]
+  | cons a rest ih =>
+    cases a with
+    | dispatch m => simp [rdRun, rdStep, ih, RdAct.msg?]
+    | finish m => simp [rdRun, rdStep, ih, RdAct.msg?, List.filterMap_cons]
+
+/-- the variant with a bound on running processors, the slot taken inside `Dispatch`: once as many
+handlers are stuck as there are slots, the receive loop that brings the next message — from
+whichever peer — is blocked, and the message is never handled -/
+theorem c09_bounded_dispatcher_is_not_contained :
+    rdStep (some 2) (rdRun (some 2) {} [.dispatch 1, .dispatch 2]) (.dispatch 3) = none ∧
+    (rdRun (some 2) {} [.dispatch 1, .dispatch 2, .dispatch 3]).started = [1, 2] := by
+  decide
+
 /-- the loop and the table together, on a worked stream: two frames, an undecodable one, a frame,
 then the peer resets — three packets dispatched, both handlers told about peer 1, the entry gone;
 what the peer might have sent afterwards plays no role -/
